@@ -1,11 +1,14 @@
 """C04 - text -> number/boolean conversion is exact or rejected (DESIGN 4/C04)."""
-from runner import Ob, run_property
+from runner import Ob
+from props.common import run_with
+
+NEEDS_LEXER = False
 
 FUNCS = ["cfg_setopt (CFGT_INT/CFGT_FLOAT/CFGT_BOOL branches)", "cfg_parse_boolean", "cfg_opt_setmulti",
          "cfg_addval", "cfg_free_value", "cfg_error"]
 
 
-def obligations(tier):
+def build_obs(tier, tables=None):
     obs = []
     ntoks = [4] if tier == "quick" else [4, 6]
     for n in ntoks:
@@ -29,8 +32,8 @@ def obligations(tier):
 
 
 def run(tier, seed):
-    return run_property(
-        "C04", obligations(tier), tier, seed=seed, functions=FUNCS,
+    return run_with(
+        "C04", tier, seed, build_obs, functions=FUNCS,
         bounds="fully symbolic tokens of <=4 (quick) / <=6 bytes, every byte value; shaped boundary tokens: fixed prefix + up to 23 (64 for 0b) symbolic digits of the selected radix; ambient errno any int; previous value any long/double",
         assumptions=[
             "strtol is the glibc-2.36 model in stubs/libc_models.h (no binary prefix, never clears errno)",
